@@ -17,7 +17,7 @@ func init() { register("C03", "exploration", runC03) }
 
 var c03Boxes = []string{"INBOX", "Alpha", "Beta"}
 
-var c03FlagPool = []string{`\Seen`, `\Flagged`, `\Answered`, `\Draft`, `\Deleted`, `kwone`, `KwTwo`, `\SEEN`, `\deleted`, `\flagged`}
+var c03FlagPool = []string{`\Seen`, `\Flagged`, `\Answered`, `\Draft`, `\Deleted`, `kwone`, `KwTwo`, `\SEEN`, `\deleted`, `\flagged`, `kw,comma`}
 
 func pickFlags(rng *rand.Rand, allowEmpty bool) []string {
 	n := rng.Intn(4)
